@@ -29,6 +29,9 @@ def run(prop, name, edits=None, reverse=None):
     if fi:
         m=re.search(r'"oracle_msg": "([^"]*)"',fi[0]); detail=(m.group(1) if m else fi[0][:200])
         m2=re.search(r'"site": "([^"]*)"',fi[0]); detail+=" | site="+(m2.group(1) if m2 else "")
+        br=[l for l in out if l.startswith("broken")]
+        if br:
+            k=out.index(br[0]); detail+=" || "+" ".join(x.strip() for x in out[k:k+12])[:700]
     else:
         br=[l for l in out if l.startswith("broken")]
         detail=" ; ".join(br[:2])
